@@ -14,7 +14,11 @@ def main():
     hp = os.path.join(vlib.VERIF, "hooks_commits.txt")
     if os.path.exists(hp):
         hooks_commits = [l.split()[0] for l in open(hp) if l.strip() and not l.startswith("#")]
+    reg = set(l.strip() for l in open(os.path.join(vlib.VERIF, "registered.txt")) if l.strip() and not l.startswith("#"))
     for p in ALL:
+        if p not in reg:
+            na.append({"property_id": p, "reason": NOT_YET})
+            continue
         try:
             spec = vlib.load_spec(p)
         except Exception:
